@@ -3,12 +3,17 @@
 pub struct VxOpaque { _p: () }
 pub type Name = Seq<char>;
 pub struct Template { pub autoescape_enabled: bool, pub vx_opaque: VxOpaque }
+/// the suffix list (Vec<Cow<'static, str>> in the source; the elements are used through `as_ref()` only)
+pub type VxSuffixes = Vec<String>;
+/// some suffix of the list ends the name
+pub open spec fn has_suffix_seq(s: Seq<String>, name: Name) -> bool { exists|i: int| 0 <= i < s.len() && (#[trigger] s[i])@.is_suffix_of(name) }
+pub open spec fn has_suffix(s: VxSuffixes, name: Name) -> bool { has_suffix_seq(s@, name) }
+pub assume_specification[ <String as AsRef<str>>::as_ref ](s: &String) -> (r: &str) ensures r@ == s@;
 #[verifier::external_body]
-pub struct VxSuffixes { _p: () }
-/// some suffix of the list ends the name (`suffixes.iter().any(|s| name.ends_with(s.as_ref()))`)
-pub uninterp spec fn has_suffix(s: VxSuffixes, name: Name) -> bool;
+pub fn vx_ends_with(s: &String, p: &str) -> (r: bool) ensures r == p@.is_suffix_of(s@) { unimplemented!() }
+pub uninterp spec fn ascii_lower(s: Seq<char>) -> Seq<char>;
 #[verifier::external_body]
-pub fn vx_any_suffix(s: &VxSuffixes, name: &String) -> (r: bool) ensures r == has_suffix(*s, name@) { unimplemented!() }
+pub fn vx_ascii_lower(s: &String) -> (r: String) ensures r@ == ascii_lower(s@) { unimplemented!() }
 #[verifier::external_body]
 #[verifier::reject_recursive_types(K)]
 #[verifier::reject_recursive_types(V)]
